@@ -2,7 +2,7 @@
  * C14 - decoding untrusted WAV bytes is memory-safe and reports length faithfully.
  *
  * Engine C (DESIGN.md section 2.3 / section 4 C14): the complete corpus of wav_common.h
- * (all short byte strings; five valid templates x every choice of <= 2 (thorough 3)
+ * (all short byte strings; nine header templates x every choice of <= 2 (thorough 3)
  * deviating fields x every menu value x EVERY truncation length) is decoded by the real
  * rf_wavheader_decode from a buffer of exactly the declared size whose last byte lies
  * against a PROT_NONE page (and, as a second pass, whose first byte follows one), into a
@@ -16,26 +16,38 @@
  *   - rf_wavheader_validate / get_format / tostring return without a fault on whatever
  *     structure the call left behind (accepted, incomplete or rejected alike).
  * For headers whose length the statement does not define (fmt size < 16, 17 or odd;
- * cb_size 22 inside a fmt chunk that is not 40 bytes) only memory safety, r >= 44, the
- * truncation clause and the helper clause are enforced; a length disagreement is a note.
+ * cb_size 22 inside a fmt chunk that is not 40 bytes; a fact chunk whose size field is
+ * not 4) only memory safety, r >= 44, the truncation clause and the helper clause are
+ * enforced; a length disagreement is a note.
  * Whether the decoder accepts or rejects is left free: a negative result is always allowed.
+ *
+ * The librfn sources are linked as objects of their own (lib= in bin/checks.d/C14.py): only
+ * the public header is included here, and every static the library might keep is put back
+ * to its start-up image before every decode (vx_lib_reset).
+ * A call that does not return within a watchdog period is a violation of its own; after
+ * W_MAXHANGS of them the worker stops and hands in everything found so far (wav_common.h).
  */
 #include "vx.h"
 #include <limits.h>
+#include <stdio_ext.h>
 
-#include "pack.c"
-#include "util.c"
-#include "string.c"
-#include "wavheader.c"
+#include <librfn/time.h>
+#include <librfn/wavheader.h>
 
 uint32_t time_now(void) { return 0; }	/* referenced by util.c (ratelimit_check), never called here */
+
+/* one period of the watchdog: a call is called endless when it is still running after one to two periods (a loop of 2^32
+ * trivial iterations ends well inside that) */
+#define C14_WATCHDOG_S 4.0
 
 #include "wav_common.h"
 
 static vx_set seen_obs, seen_inputs;
 static int replaying, slen, maxdev;
 
-static uint64_t sample_ctr, sample_next = 1;	/* header cases 1, 5, 21, 85, ... of this worker are written out as samples */
+static int owns_template;
+static int sampled;	/* one sample per worker, so that the 24 samples kept by the driver show every family: the template this
+			 * worker owns, else (even workers) its first multi-deviation case or (odd workers) a big header */
 static char *cur_rp;
 static const char *case_rp(const w_case *c) { if (!cur_rp) cur_rp = w_case_replay(c); return cur_rp; }
 
@@ -52,8 +64,10 @@ static int do_decode(const uint8_t *src, int t, int right, int *ret)
 {
 	const uint8_t *p = w_place(src, t, right);
 	memset(w_wh, 0xa5, sizeof(*w_wh));
+	vx_lib_reset();
 	if (VX_TRY) { *ret = rf_wavheader_decode(p, (unsigned)t, w_wh); VX_END; return 0; }
 	VX_END;
+	w_after_fault();
 	return 1;
 }
 
@@ -71,20 +85,22 @@ static void run_helpers(const w_case *c, int t, int ret, int accepted)
 {
 	char *volatile s = NULL;
 	W_COUNT("helper_runs", 1);
-	if (VX_TRY) { (void)rf_wavheader_validate(w_wh); VX_END; } else { VX_END; helper_fault(c, t, ret, accepted, "rf_wavheader_validate"); }
-	if (VX_TRY) { (void)rf_wavheader_get_format(w_wh); VX_END; } else { VX_END; helper_fault(c, t, ret, accepted, "rf_wavheader_get_format"); }
-	if (VX_TRY) { s = rf_wavheader_tostring(w_wh); VX_END; } else { VX_END; helper_fault(c, t, ret, accepted, "rf_wavheader_tostring"); }
+	if (VX_TRY) { (void)rf_wavheader_validate(w_wh); VX_END; } else { VX_END; w_after_fault(); helper_fault(c, t, ret, accepted, "rf_wavheader_validate"); }
+	if (w_hang_abort) return;
+	if (VX_TRY) { (void)rf_wavheader_get_format(w_wh); VX_END; } else { VX_END; w_after_fault(); helper_fault(c, t, ret, accepted, "rf_wavheader_get_format"); }
+	if (w_hang_abort) return;
+	if (VX_TRY) { s = rf_wavheader_tostring(w_wh); VX_END; } else { VX_END; w_after_fault(); helper_fault(c, t, ret, accepted, "rf_wavheader_tostring"); }
 	free(s);
 }
 
 static void run_helpers_big(const char *ct, const char *rp, uint64_t t, int ret, int accepted)
 {
-	char *volatile s = NULL; char key[300];
+	char *volatile s = NULL; char key[400];
 	const char *bad = NULL;
 	W_COUNT("helper_runs", 1);
-	if (VX_TRY) { (void)rf_wavheader_validate(w_wh); VX_END; } else { VX_END; bad = "rf_wavheader_validate"; }
-	if (!bad) { if (VX_TRY) { (void)rf_wavheader_get_format(w_wh); VX_END; } else { VX_END; bad = "rf_wavheader_get_format"; } }
-	if (!bad) { if (VX_TRY) { s = rf_wavheader_tostring(w_wh); VX_END; } else { VX_END; bad = "rf_wavheader_tostring"; } }
+	if (VX_TRY) { (void)rf_wavheader_validate(w_wh); VX_END; } else { VX_END; w_after_fault(); bad = "rf_wavheader_validate"; }
+	if (!bad) { if (VX_TRY) { (void)rf_wavheader_get_format(w_wh); VX_END; } else { VX_END; w_after_fault(); bad = "rf_wavheader_get_format"; } }
+	if (!bad) { if (VX_TRY) { s = rf_wavheader_tostring(w_wh); VX_END; } else { VX_END; w_after_fault(); bad = "rf_wavheader_tostring"; } }
 	free(s);
 	if (bad) {
 		snprintf(key, sizeof(key), "helper-fault|%s|%s|decode=%s", bad, vx_fault_msg, accepted ? "accepted" : "not-accepted");
@@ -112,16 +128,17 @@ static void c14_big(const w_bigcase *c)
 	}
 	snprintf(ct, sizeof(ct), "big-header|fmt-extension=%u", c->ext);
 	W_COUNT("big_headers", 1);
-	for (int k = 0; k < np; k++) {
+	for (int k = 0; k < np && !w_hang_abort; k++) {
 		uint64_t t = pts[k];
 		uint8_t *p = w_big_in_end - t;
 		int ret = 0;
 		memcpy(p, w_big_img, t);
 		memset(w_wh, 0xa5, sizeof(*w_wh));
 		W_COUNT("evaluations", 1); W_COUNT("big_header_decodes", 1);
+		vx_lib_reset();
 		if (VX_TRY) { ret = rf_wavheader_decode(p, (unsigned)t, w_wh); VX_END; }
 		else {
-			VX_END;
+			VX_END; w_after_fault();
 			snprintf(key, sizeof(key), "decode-fault|%s|buffer ends at guard page", vx_fault_msg);
 			w_report(key, ct, rp, "rf_wavheader_decode faults (%s) on the first %llu bytes of a %llu-byte header with a %u-byte fmt extension", vx_fault_msg,
 				 (unsigned long long)t, (unsigned long long)hl, c->ext);
@@ -132,7 +149,7 @@ static void c14_big(const w_bigcase *c)
 		if (!w_silent && !replaying) {
 			vx_hasher h; vx_h_init(&h); vx_h_u64(&h, 0xb16); vx_h_u64(&h, c->ext); vx_h_u64(&h, c->cb); vx_h_u64(&h, c->af); vx_h_u64(&h, (uint64_t)(c->fact * 4 + c->trail)); vx_h_u64(&h, t);
 			if (vx_set_add(&seen_inputs, vx_h_done(&h))) vx_count("distinct", 1);
-			if (t == n && vx_want_sample() && c->ext >= 65536 && c->cb == 0 && c->af == 0xfffe && !c->trail)
+			if (t == n && !sampled && (vx_args.worker & 1) && c->ext >= 65536 && (sampled = 1))
 				vx_sample("%s cb=%u af=%u fact=%d sz=%llu -> %d (reference: length %llu)", ct, c->cb, c->af, c->fact, (unsigned long long)t, ret, (unsigned long long)hl);
 		}
 		if (accepted && t < hl)
@@ -151,18 +168,50 @@ static void c14_big(const w_bigcase *c)
 	free(rp);
 }
 
+/* results of the prefixes a case shares with its parent (the case without the last deviation): the same bytes at the same
+ * length are an input of the parent and are judged there; the truncation clause of THIS case still needs to know whether
+ * they were accepted. The parent's prefixes are decoded once per parent (the deviating fields of its children come in
+ * ascending order, so the known range only grows). */
+static struct { int valid, tmpl, nd, fld[W_MAXDEV], alt[W_MAXDEV], high; int rets[W_BUFMAX + 1]; uint8_t acc[W_BUFMAX + 1]; } c14_pc;
+
+static int c14_pc_matches(const w_case *c)
+{
+	if (!c14_pc.valid || c->nd < 1 || c14_pc.tmpl != c->tmpl || c14_pc.nd != c->nd - 1) return 0;
+	for (int i = 0; i < c->nd - 1; i++) if (c14_pc.fld[i] != c->fld[i] || c14_pc.alt[i] != c->alt[i]) return 0;
+	return 1;
+}
+
 static void c14_case(const w_case *c)
 {
 	static int rets[W_BUFMAX + 1]; static uint8_t acc[W_BUFMAX + 1];
 	char ct[400], key[400];
 	int rmax = -1, rmax_at = -1;
 
+	if (w_hang_abort) return;
 	free(cur_rp); cur_rp = NULL;
 	W_COUNT("cases", 1);
 	if (c->tmpl < 0) W_COUNT("cases_byte_strings", 1);
 	else if (c->nd >= 0) { snprintf(key, sizeof(key), "cases_headers_%d_deviations", c->nd); W_COUNT(key, 1); }
 
-	for (int t = c->tmin; t <= c->n; t++) {
+	/* ---- prefixes owned by the parent case: result only */
+	if (c->tdup >= c->tmin) {
+		if (!c14_pc_matches(c)) {
+			c14_pc.valid = c->nd >= 1; c14_pc.tmpl = c->tmpl; c14_pc.nd = c->nd - 1; c14_pc.high = -1;
+			for (int i = 0; i < c->nd - 1; i++) { c14_pc.fld[i] = c->fld[i]; c14_pc.alt[i] = c->alt[i]; }
+		}
+		for (int t = c->tmin; t <= c->tdup && t <= c->n && !w_hang_abort; t++) {
+			if (t > c14_pc.high || c->tmin > 0) {
+				int ret = 0;
+				W_COUNT("prefix_decodes_for_the_truncation_clause", 1);
+				if (do_decode(c->buf, t, 1, &ret)) { c14_pc.rets[t] = INT_MIN; c14_pc.acc[t] = 0; }
+				else { c14_pc.rets[t] = ret; c14_pc.acc[t] = (uint8_t)(ret >= 0 && ret <= t); }
+				if (c->tmin == 0) c14_pc.high = t;
+			}
+			rets[t] = c14_pc.rets[t]; acc[t] = c14_pc.acc[t];
+		}
+	}
+
+	for (int t = (c->tdup + 1 > c->tmin ? c->tdup + 1 : c->tmin); t <= c->n && !w_hang_abort; t++) {
 		int ret = 0; w_ref ref;
 		acc[t] = 0; rets[t] = INT_MIN;
 		W_COUNT("evaluations", 1);
@@ -186,7 +235,7 @@ static void c14_case(const w_case *c)
 				vx_h_bytes(&h, c->buf, (size_t)t);
 				if (vx_set_add(&seen_inputs, vx_h_done(&h))) vx_count("distinct", 1);
 			}
-			if (t == c->n && c->tmpl >= 0 && vx_want_sample() && ++sample_ctr == sample_next && (sample_next = sample_next * 4 + 1))
+			if (t == c->n && c->tmpl >= 0 && !sampled && (c->nd == 0 || (c->nd >= 2 && !(vx_args.worker & 1) && !owns_template)) && (sampled = 1))
 				vx_sample("%s sz=%d -> %d (reference: %s%llu%s)", c->desc, t, ret, ref.complete ? "length " : "incomplete/",
 					  (unsigned long long)ref.len, ref.consistent ? "" : ", length not defined by the statement");
 		}
@@ -195,8 +244,8 @@ static void c14_case(const w_case *c)
 		if (accepted) {
 			if (ret < RF_WAVHEADER_MIN_SIZE)
 				w_report("min-size", ct, case_rp(c),
-					 "rf_wavheader_decode(%d bytes) = %d: reported as success (0 <= r <= sz) with a header length below RF_WAVHEADER_MIN_SIZE (44); "
-					 "fmt_chunk_size=0x%x; reference: %s; input %s", t, ret, ref.fmt_size,
+					 "rf_wavheader_decode(%d bytes) = %d: reported as success (0 <= r <= sz) with a header length below RF_WAVHEADER_MIN_SIZE (%d); "
+					 "fmt_chunk_size=0x%x; reference: %s; input %s", t, ret, (int)RF_WAVHEADER_MIN_SIZE, ref.fmt_size,
 					 ref.complete ? "complete" : "header does not end inside the supplied bytes", hexof(c->buf, t));
 			else if (!ref.consistent) {
 				W_COUNT("inconsistent_headers_accepted", 1);
@@ -227,6 +276,7 @@ static void c14_case(const w_case *c)
 			if (fresh) vx_count("distinct_observations", 1);
 		}
 		if (fresh) run_helpers(c, t, ret, accepted);
+		if (w_hang_abort) break;
 
 		/* ---- second placement: the buffer starts right after a PROT_NONE page */
 		if (t == c->n || vx_thorough()) {
@@ -241,8 +291,9 @@ static void c14_case(const w_case *c)
 					 t, ret, ret2, hexof(c->buf, t));
 		}
 	}
+	if (w_hang_abort) return;
 
-	/* ---- truncating an accepted header never yields success */
+	/* ---- truncating an accepted header never yields success (the accepted header is one of this case's own inputs) */
 	for (int t = c->tmin; t <= c->n && t < rmax; t++)
 		if (acc[t]) {
 			snprintf(ct, sizeof(ct), "%s|sz=%d|ret=%d|full=%d", c->desc, t, rets[t], rmax);
@@ -256,7 +307,8 @@ int main(int argc, char **argv)
 {
 	vx_init(argc, argv);
 	vx_install_handlers();
-	vx_watchdog(2.0);
+	vx_watchdog(C14_WATCHDOG_S);
+	__fsetlocking(stdout, FSETLOCKING_BYCALLER); __fsetlocking(stderr, FSETLOCKING_BYCALLER);	/* a fault inside stdio must not leave a lock behind */
 	w_setup_templates();
 	w_setup_guards();
 	slen = vx_thorough() ? 3 : 2;
@@ -274,6 +326,7 @@ int main(int argc, char **argv)
 	}
 	vx_set_init(&seen_obs, 16);
 	vx_set_init(&seen_inputs, 16);
+	for (int t = 0; t < w_ntmpl; t++) if (vx_mine((uint64_t)t)) owns_template = 1;
 
 	/* common silent part: every worker learns the same first case of each violation class */
 	w_silent = 1;
@@ -290,12 +343,14 @@ int main(int argc, char **argv)
 		w_big_get(i, &bc); c14_big(&bc);
 		if (vx_deadline_passed()) w_stop = 1;
 	}
+	w_hang_epilogue();
 
 	vx_and("exhaustive", !w_stop);
 	vx_min("string_length_bound_completed", (uint64_t)(done_len < 0 ? 0 : done_len));
 	vx_min("deviation_bound_completed", (uint64_t)(done_dev < 0 ? 0 : done_dev));
+	vx_count("header_templates", (uint64_t)(vx_args.worker == 0 ? w_ntmpl : 0));
 	vx_count("scope_guard_skips", 0);	/* the quantifier has no scope guard: every byte string is a legal input */
-	if (w_stop) vx_note("deadline reached before the stated space was enumerated; see *_bound_completed");
+	if (w_stop && !w_hang_abort) vx_note("deadline reached before the stated space was enumerated; see *_bound_completed");
 	vx_finish();
 	return 0;
 }
